@@ -16,8 +16,10 @@ A case is 2-4 *sessions*, each on a freshly elaborated endpoint.  A session =
     expected), after a data packet either ACK TP Seq+1 with NumP 1 (acknowledge + request) or NumP 0 (pure acknowledgement),
     or - host-side "CRC error" - ACK TP with Rty=1 and the same Seq, or - "packet never seen" - the same Seq without Rty;
     after NRDY the host stops polling until ERDY; ACK TPs for other endpoints (same fields, also Seq+1) and STATUS TPs are
-    sprinkled over every idle cycle; `ep_reset` pulses at quiet points (everything delivered and acknowledged);
-    request times are random, or placed on purpose in the cycle in which a packet becomes complete / right after it.
+    sprinkled over every idle cycle; `ep_reset` pulses at quiet points (the producer pauses after chosen transfers until
+    everything is delivered and acknowledged, the host resets, both restart at sequence 0, the stream goes on);
+    request times are random, or placed on purpose in the cycle in which a packet becomes complete / right after it;
+    acknowledgements are placed so that the sequence number wraps 31 -> 0 in sessions of 35-45 small packets.
   Two profiles: *hostile* (everything above) and *saturated* (the host acknowledges a packet only when the next one is
   already buffered, no stall on a last word, no packet <= 4 bytes, no transfer that is an exact multiple of the packet
   size) - the second one exists because the unchanged endpoint has several defects (see findings/C46.md) that the hostile
@@ -38,7 +40,20 @@ its word carried `last`; a transfer that ends on a full packet is followed by a 
   * `tx` obeys the stream rules (word held while not ready, `valid` kept up to the `last` word, legal byte masks);
   * NRDY / ERDY requests carry the endpoint's number.
 After a violation the model re-synchronises where the hardware stays self-consistent (sequence number adopted, unanswered
-request re-issued as a real host would after its timeout) and gives up the session where it does not.
+request re-issued as a real host would after its timeout) and gives up the session where it does not.  Because the header
+fields of 1..4-byte packets and ZLPs are not visible on the unchanged tree (findings 7, 8), a sequence-number lag (finding 3)
+can go unseen for a while; the model tracks that ("in_sync") and counts the endpoint's later reaction to it (it takes an
+acknowledgement for a retry and sends the previous packet again) as *unjudged* instead of inventing new mechanism names.
+Each mechanism is reported once per case, so that the 20 violations a Result keeps cannot crowd out a new mechanism.
+
+Validation: on a copy of the tree with the fix proposed in findings/C46.md the whole hostile workload holds (seeds 0-3, no
+violation, no known finding), i.e. the oracle raises no alarm on an endpoint for which the property holds; the same copy
+without the transparent read port is caught (`packet_bytes_wrong`, stale first word).  Mutations on /repo (93 tests pass
+for each), all caught by the quick tier: sequence advanced on retry, ERDY not required after NRDY (DESIGN section 10),
+`is_to_us` dropped, last-word comparison `>`, 3-byte mask 0011, 4-bit sequence counter, repeated sequence number taken for an
+acknowledgement, `stream_ended` flag not cleared on buffer swap, sequence number not reset by ep_reset (escaped until the
+mid-session reset points were added), send position not reset, tx.ready ignored mid-packet, fill count not cleared on
+acknowledgement, ZLP dropped, data sent on a pure acknowledgement, 3-byte final word counted as 4, stale `last_packet_was_zlp`.
 
 Not judged: `first` on tx, tx_direction, bursts (the host never asks for more than one packet: NumP is 0 or 1, as for an
 endpoint without burst capability), Rty=1 with NumP=0, ACK TPs to the endpoint that no host would send (acknowledging nothing),
